@@ -189,7 +189,10 @@ where
                                 // failed negotiation, not a protocol violation. In this case
                                 // the dialer also raises `NegotiationError::Failed` when finally
                                 // reading the `N/A` response.
-                                if let ProtocolError::InvalidMessage = &err {
+                                if let ProtocolError::InvalidMessage
+                                | ProtocolError::InvalidProtocol
+                                | ProtocolError::TooManyProtocols = &err
+                                {
                                     tracing::trace!(
                                         "Listener: Negotiation failed with invalid \
                                         message after protocol rejection."
@@ -197,11 +200,15 @@ where
                                     return Poll::Ready(Err(NegotiationError::Failed));
                                 }
                                 if let ProtocolError::IoError(e) = &err
-                                    && e.kind() == std::io::ErrorKind::UnexpectedEof
+                                    && matches!(
+                                        e.kind(),
+                                        std::io::ErrorKind::UnexpectedEof
+                                            | std::io::ErrorKind::InvalidData
+                                    )
                                 {
                                     tracing::trace!(
-                                        "Listener: Negotiation failed with EOF \
-                                            after protocol rejection."
+                                        "Listener: Negotiation failed with EOF or \
+                                            undecodable data after protocol rejection."
                                     );
                                     return Poll::Ready(Err(NegotiationError::Failed));
                                 }
